@@ -888,8 +888,9 @@ public:
         if (auto* as = dyn_cast<ArraySubscriptExpr>(e))
         {
             o["k"] = "subscript";
-            o["base"] = JE(as->getBase());
-            o["idx"] = JE(as->getIdx());
+            // syntactic operands (for dependent types clang cannot tell which one is the pointer)
+            o["base"] = JE(as->getLHS());
+            o["idx"] = JE(as->getRHS());
             o["ln"] = ln;
             typeFlags(o, as->getType());
             return o;
